@@ -49,6 +49,7 @@ func c41Encoder(c *Ctx) {
 		onVal bool  // the outcome that establishes the fact
 	}
 	leaves := map[ssa.Value]leafKind{}
+	predCalls := map[string]bool{}
 	var headCheck *ssa.BinOp
 	var posPhi *ssa.Phi
 	var loopCopies, topCopies, idxWrites []ssa.Instruction
@@ -120,6 +121,15 @@ func c41Encoder(c *Ctx) {
 					if S.Sym(x.Common().Args[1]) == "recv.frame[2:4]" {
 						if k, isK := constInt(x.Common().Args[2]); !(isK && k == 0xffff) {
 							idxWrites = append(idxWrites, in)
+						}
+					}
+				default:
+					// the validation extracted into a predicate f(e.pkt) (rules_c41_pred.go)
+					if cal := x.Common().StaticCallee(); cal != nil && cal.Pkg == fn.Pkg && len(x.Common().Args) == 1 &&
+						S.Sym(x.Common().Args[0]) == "recv.pkt" {
+						if isPred, _ := c41IsValidationPredicate(cal); isPred {
+							leaves[x] = leafKind{kind: "valid", onVal: true}
+							predCalls[calleeName(x.Common())] = true
 						}
 					}
 				}
@@ -221,8 +231,10 @@ func c41Encoder(c *Ctx) {
 				return bits
 			case name == "(*gateway/dataplane.pktRing).Read":
 				return bits
+			case predCalls[name]:
+				return bits
 			case allowedCalls[name]:
-				if name == "(encoding/binary.bigEndian).PutUint16" {
+				if name =="(encoding/binary.bigEndian).PutUint16" {
 					for _, w := range idxWrites {
 						if w == in {
 							bits |= c41Idx
@@ -275,6 +287,8 @@ func c41Encoder(c *Ctx) {
 			bits |= c41Eq4
 		case "eq6":
 			bits |= c41Eq6
+		case "valid":
+			bits |= c41NonEmpty | c41V4 | c41Len20 | c41Eq4
 		case "nopkt":
 			bits &^= c41Fresh
 		}
